@@ -532,7 +532,10 @@ def _rt_cases() -> Dict[str, List[Tuple[str, List[List[Any]]]]]:
                   ("nan_inf", [[NAN, 0.1], [math.inf, -math.inf], [NAN, NAN]])],
         "string": [("numeric_looking", [["10", "9"], ["010", "10", " 7"], ["1e5", "nan", "true", "null", "-1"]]),
                    ("unicode", [["é", "z", "É"], ["\U0001F600", "\uffff"], ["", "a"], ["中文", "\u0000x"]]),
-                   ("json_looking", [['{"t":"int","v":5}', '{"t": "str", "v": "a"}'], ['"quoted"', "back\\slash"]])],
+                   ("json_looking", [['{"t":"int","v":5}', '{"t": "str", "v": "a"}'], ['"quoted"', "back\\slash"]]),
+                   ("long_common_prefix", [["order-2024-europe-000001", "order-2024-europe-000009", "order-2024-europe-000003"],
+                                           ["x" * 40 + "a", "x" * 40 + "b"], ["y" * 300, "y" * 299 + "z"],
+                                           ["https://example.org/a/very/long/path/segment/0001", "https://example.org/a/very/long/path/segment/0002"]])],
         "boolean": [("bools", [[True], [False], [False, True, None], [None]])],
         "date": [("dates", [[D(1, 1, 1), D(9999, 12, 31)], [D(1969, 12, 31), D(1970, 1, 1)], [D(2024, 2, 29), None]])],
         "timestamp": [("timestamps", [[TS(1969, 12, 31, 23, 59, 59, 999999), TS(1970, 1, 1)], [TS(2024, 2, 29, 12, 0, 0, 1)],
@@ -756,12 +759,49 @@ def e2e_worker(payload: Tuple[str, str, int, List[Tuple[Tuple[str, ...], ...]], 
 # ---------------------------------------------------------------------------
 # driver
 # ---------------------------------------------------------------------------
+def mixed_roundtrip_worker(payload: Tuple[str, int]) -> Dict[str, Any]:
+    """Columns of DIFFERENT types whose bounds are equal as Python values (True == 1 == 1.0, False == 0 == 0.0,
+    "1") written by one process, in both column orders: every decoded bound must carry its own column's type."""
+    from datashard import Schema, create_table
+
+    tier, seed = payload
+    rep = Report(PROP, tier, seed, "exploration")
+    cols = [("b", "boolean", bool), ("d", "double", float), ("i", "long", int), ("s", "string", str),
+            ("f", "float", float), ("n", "int", int)]
+    rows = [[{"b": True, "d": 1.0, "i": 1, "s": "1", "f": 1.0, "n": 1}],
+            [{"b": False, "d": 0.0, "i": 0, "s": "0", "f": 0.0, "n": 0}],
+            [{"b": True, "d": 1.0, "i": 1, "s": "True", "f": 1.0, "n": 1}, {"b": False, "d": 0.0, "i": 0, "s": "0.0", "f": 0.0, "n": 0}]]
+    for order_name, order in (("bool_first", cols), ("bool_last", list(reversed(cols)))):
+        use_local()
+        fields = [{"id": 10 + j, "name": n, "type": t, "required": False} for j, (n, t, _py) in enumerate(order)]
+        t = create_table(fresh_dir(f"c13-mixed-{order_name}"), Schema(schema_id=1, fields=fields))
+        for recs in rows:
+            t.append_records(recs)
+        for fi, df in enumerate(t._get_all_data_files()):
+            for j, (n, tn, py) in enumerate(order):
+                for side, bounds in (("lower", df.lower_bounds or {}), ("upper", df.upper_bounds or {})):
+                    rep.add("evaluations")
+                    rep.add("roundtrip_bounds_mixed_types")
+                    b = bounds.get(10 + j)
+                    vals = [r[n] for r in rows[fi]]
+                    truth = (min if side == "lower" else max)(vals)
+                    rep.nontrivial(("rt-mixed", order_name, fi, n, side))
+                    if type(b) is not py or b != truth:
+                        rep.violation({"part": "roundtrip", "type": tn, "case": "equal_valued_bounds_of_other_types", "side": side,
+                                       "problem": "type" if type(b) is not py else "value"},
+                                      {"column_order": order_name, "column": n, "values": repr(vals), "decoded": repr(b),
+                                       "decoded_type": type(b).__name__, "expected": repr(truth)})
+    return rep.part()
+
+
 def _worker(payload: Tuple) -> Dict[str, Any]:
     kind = payload[0]
     if kind == "dec":
         return decision_worker(payload[1:])
     if kind == "rt":
         return roundtrip_worker(payload[1:])
+    if kind == "rtmix":
+        return mixed_roundtrip_worker(payload[1:])
     return e2e_worker(payload[1:])
 
 
@@ -796,6 +836,7 @@ def run(tier: str, seed: int) -> Report:
     for tname in ALL_TYPES:
         payloads.append(("dec", tname, tier, seed, max_size))
         payloads.append(("rt", tname, tier, seed))
+    payloads.append(("rtmix", tier, seed))
     e2e_types = QUICK_E2E_TYPES if tier == "quick" else ALL_TYPES
     per = 2 if tier == "quick" else 3
     for tname in e2e_types:
